@@ -12,6 +12,7 @@ import (
 	"math/big"
 	"runtime"
 	"sync"
+	"time"
 
 	proto4 "go.sia.tech/core/rhp/v4"
 	"go.sia.tech/core/types"
@@ -935,6 +936,61 @@ func linkOrder(variant int) job {
 	}
 }
 
+
+// racingReplenish: two replenishes of the same account through the same contract, the first one
+// held right in front of the contract lock while the second completes; the first one's challenge
+// is signed for the revision number the second leaves behind.  Whatever the first one does after it
+// gets the lock has to start from the balances as they are then: the account ends at the target.
+func racingReplenish(variant int) job {
+	return func(w *worker) {
+		ids := w.fresh(2)
+		x, y := ids[0], ids[1]
+		k := w.begin(fmt.Sprintf("racing-replenish-%d", variant), ids, nil)
+		target := types.Siacoins(1)
+		accts := []int{x}
+		if variant%2 == 1 {
+			accts = []int{x, y}
+			k.fund(rhpx.FundArgs{Deposits: []rhpx.Deposit{{Account: y, Amount: target.Div64(4)}}, Sig: rhpx.Honest})
+		}
+		rev0 := k.rev()
+		blocked, release := make(chan struct{}), make(chan struct{})
+		w.rig.Con.GateNextLock(func() { close(blocked); <-release })
+		var after types.V2FileContract
+		done := make(chan rhpx.Result, 1)
+		go func() {
+			// A: sent first, reaches the host first, waits in front of the lock
+			done <- w.s.Replenish(rhpx.ReplArgs{Cid: cid, Accounts: accts, Target: target,
+				Chal:   rhpx.SigSpec{Kind: "q", Key: rhpx.RenterKeyID, Cid: cid, N: rev0.RevisionNumber + 1, Target: target, Accts: accts},
+				Second: rhpx.Honest, Base: func() types.V2FileContract { return after }})
+		}()
+		select {
+		case <-blocked:
+		case <-time.After(10 * time.Second):
+			k.c.Oracle("harness-setup", "the first replenish never reached the contract lock")
+			close(release)
+			<-done
+			k.done(false)
+			return
+		}
+		// B: runs to completion meanwhile
+		k.replenish(rhpx.ReplArgs{Accounts: accts, Target: target, Chal: rhpx.Honest, Second: rhpx.Honest})
+		after = k.rev()
+		before, tot0 := k.rev(), k.total()
+		w.rig.Rec.Tee(true)
+		close(release)
+		resA := <-done
+		k.c.Op(resA.Op, resA.Impl)
+		k.afterCredit("replenish-accounts", before, tot0, resA)
+		for _, a := range accts {
+			b, _ := w.rig.EC.AccountBalance(rhpx.Acct(a))
+			if b.Cmp(target) > 0 {
+				k.c.Oracle("replenish-beyond-target:replenish-accounts", "%d: two racing replenishes to %v left the balance at %v", a, target.ExactString(), b.ExactString())
+			}
+		}
+		k.done(true, "kind:racing-replenish")
+	}
+}
+
 // history: a random sequence over a small universe of accounts and pools.
 func history(idx int, rng *vh.RNG, steps int) job {
 	return func(w *worker) {
@@ -1060,6 +1116,9 @@ func Run(r *vh.Run) {
 	}
 	for v := 0; v <= 11; v++ {
 		jobs = append(jobs, fundCase(v), linkCase(v), linkOrder(v))
+	}
+	for v := 0; v < 4; v++ {
+		jobs = append(jobs, racingReplenish(v))
 	}
 	nh := r.Pick(1500, 20000)
 	steps := r.Pick(30, 60)
